@@ -42,8 +42,8 @@ class CheckC05(core.Check):
         rnd = random.Random(self.seed * 141650963 + 5)
         descs = []
         quick = self.tier == "quick"
-        L = 3 if quick else 4
-        configs = [("ChaChaPoly", "D")] if quick else [(c, b) for c in CIPHERS for b in ("D", "R")]
+        L = 4 if quick else 5
+        configs = [("ChaChaPoly", "D")] if quick else [("ChaChaPoly", "D"), ("AESGCM", "R")]
         alpha_n = len(alphabet(3, [0, 1, 2, 3, MAXN]))
         for ci, be in configs:
             for d in (0, 1):
@@ -51,7 +51,17 @@ class CheckC05(core.Check):
                     for seq in itertools.product(range(alpha_n), repeat=ln):
                         descs.append((ci, be, d, "x:" + ",".join(map(str, seq))))
         self.exhaustive = True
-        for _ in range(6000 if quick else 200000):
+        if not quick:
+            # every cipher x back end exhaustively to length 4
+            for ci in CIPHERS:
+                for be in ("D", "R", "DR"):
+                    if (ci, be) in configs:
+                        continue
+                    for d in (0, 1):
+                        for ln in range(1, 5):
+                            for seq in itertools.product(range(alpha_n), repeat=ln):
+                                descs.append((ci, be, d, "x:" + ",".join(map(str, seq))))
+        for _ in range(20000 if quick else 400000):
             descs.append((rnd.choice(CIPHERS), rnd.choice(["D", "R", "DR"]), rnd.randrange(2), "r:%d" % rnd.getrandbits(32)))
         return descs
 
